@@ -170,3 +170,39 @@ def u_b_variances(ctx):
         return "ok"
     shapes = [(1, 1, 1), (2, 1, 1), (2, 2, 1)] + ([(3, 1, 2), (2, 2, 2)] if ctx.tier == "thorough" else [])    # (3, 2, 1): the Bulmer ratio stays `unknown`
     modeb.run_shapes(ctx, "variances", shapes, body, timeout_ms=20000)
+
+
+TBV = "pybrops/breed/prot/bv/TrueBreedingValue.py"
+
+
+@unit(P, "A1[TrueBreedingValue.estimate hands out the bound model's gebv of the given genotypes (breeding, not genotypic, values)]", "A1",
+      targets=[TBV + ":TrueBreedingValue.estimate"])
+def u_true_bv(ctx):
+    """wiring contract of the thin wrapper: the result IS `self.gpmod.gebv(gtobj)` -- computed by the bound model, from the genotype
+    object that was passed, and it is the breeding-value routine (a model with non-additive effects answers gegv differently)"""
+    from pyvc import loopcut
+    from pybrops.breed.prot.bv.TrueBreedingValue import TrueBreedingValue as _Real
+    f = loopcut.Extracted(TBV + ":TrueBreedingValue.estimate")
+    calls = []
+    bv, gv, gt, pt = loopcut.Token("gebv-result"), loopcut.Token("gegv-result"), loopcut.Token("gtobj"), loopcut.Token("ptobj")
+
+    class GP:
+        def gebv(self, g, *a, **kw):
+            calls.append(("gebv", g, a, kw))
+            return bv
+
+        def gegv(self, g, *a, **kw):
+            calls.append(("gegv", g, a, kw))
+            return gv
+    me = loopcut.stub_of(_Real)
+    me.gpmod = GP()
+    try:
+        out = f(me, pt, gt)
+        err = None
+    except Exception as x:       # noqa
+        out, err = None, "%s: %s" % (type(x).__name__, x)
+    ctx.record("estimate:noraise", err is None, kind="noraise", detail=err or "")
+    ctx.prove("estimate: exactly one model call, the breeding-value routine, on the genotypes passed in", [],
+              len(calls) == 1 and calls[0][0] == "gebv" and calls[0][1] is gt)
+    ctx.prove("estimate: returns what the model returned", [], out is bv)
+    ctx.prove("canary: estimate returns the genotypic values", [], out is gv, expect="fail", timeout_ms=1000)
